@@ -55,7 +55,8 @@ fn run_case(i: usize, case: &Value) -> Value {
             log_mdc::insert(k.clone(), v.clone());
         }
         // every other record uses an encoder built from a configuration value ({kind: json})
-        let enc: Box<dyn Encode> = if i % 2 == 1 {
+        let v = mix(i);
+        let enc: Box<dyn Encode> = if v % 2 == 1 {
             let v: serde_value::Value = serde_json::from_value(json!({})).unwrap();
             log4rs::config::Deserializers::default().deserialize::<dyn Encode>("json", v).expect("json encoder from configuration")
         } else {
@@ -63,10 +64,10 @@ fn run_case(i: usize, case: &Value) -> Value {
         };
         // an earlier record of this thread whose sink failed part-way must leave nothing behind
         let mut broken = Cap::new(vec![]);
-        broken.fail_after = Some((i % 6) * 7);
+        broken.fail_after = Some((v % 6) * 7);
         let _ = catch(|| enc.encode(&mut broken, &log::Record::builder().level(lvl).target("earlier").args(format_args!("earlier record")).build()));
         // the sink accepts a prefix per write call (JsonLine.tla)
-        let mut cap = Cap::new(match (i / 2) % 4 {
+        let mut cap = Cap::new(match (v / 2) % 4 {
             0 => vec![],
             1 => vec![1],
             2 => vec![7, 1, 64],
